@@ -102,6 +102,8 @@ class _G:
         forms = lang["forms"]
         if o.forms:
             forms = [f for f in forms if f.id in o.forms] or forms
+        if isinstance(o.container, tuple):
+            forms = [f for f in forms if not f.col0] or forms      # indented code cannot hold a comment form that must start in column 1
         self.forms = forms
 
     def indent(self, depth):
